@@ -317,6 +317,18 @@ def run(repo, rep):
     rep.check(ok, "C07-d", f"{ENC}:encode_section", "zero runs consumed by consecutive slices of a section are contiguous (first slice len + 1 runs from its position, later slices len runs from one past it)",
               why + ": a later slice re-emits its predecessor's last zero run and drops its own last one")
 
+    # slice boundaries: walking the parameter-search path backwards, a slice ends just before the position where the next configuration starts
+    sg_ = enc.body("search_grc_params")
+    ep = [n for n in enc.walk(sg_) if n.get("kind") == "BinaryOperator" and n.get("opcode") == "=" and enc.text(n["inner"][0]).strip() == "endpos" and "i" in enc.text(n["inner"][1])]
+    if len(ep) != 1:
+        raise AnalysisError("search_grc_params: back-tracking assignment of endpos not found")
+    try:
+        vals = [c_eval(ep[0]["inner"][1], {"i": v_}) - v_ for v_ in (1, 7, 100)]
+    except CEvalError as e_:
+        raise AnalysisError(f"endpos expression not evaluable: {e_}")
+    rep.check(vals == [-1, -1, -1], "C07-d", f"{ENC}:search_grc_params", "a slice ends at i - 1 when position i is the first one coded with the next parameter set",
+              f"`{enc.text(ep[0])}`: the value that needs the new parameters is still coded with the old ones (its quotient does not fit; the asserts are compiled out) and the decoder loses sync")
+
     # ---------------------------------------------------------------- h: conversion flags of the exported entries
     n_conv = 0
     for name, d in mod.functions.items():
@@ -341,3 +353,6 @@ def run(repo, rep):
     from . import c08
 
     rep.run_borrowed(c08, {"C08-h": "C07-g", "C08-c": "C07-g"}, repo)
+    from . import c15
+
+    rep.run_borrowed(c15, {"C15-c": "C07-g"}, repo, only_sites=("architecture_features",))
